@@ -293,7 +293,7 @@ class HessianMatrix:
                     # for i-i pair
                     hessian_matrix[index_i_0:index_i_1,
                                    index_i_0:index_i_1] += dudr2i * prefactor[itype,
-                                                                              jtype]
+                                                                              itype]
                     # for i-j pair
                     hessian_matrix[index_i_0:index_i_1,
                                    index_j_0:index_j_1] = dudr2j * prefactor[itype,
